@@ -141,7 +141,17 @@ def rule_r2(chk, p, t):
         else:
             r.ok(pe.qualname, "thrust cleared, then re-armed iff start < t0 < end", pe.loc(nd.ast))
         ext = [c for c in find_calls(pe.node, "extend") if unparse(c.func.value) == "events"]
-        if {unparse(c.args[0]) for c in ext} >= {pe.params[2], pe.params[3]}:
+        fwd = {unparse(c.args[0]) for c in ext}
+        for n in walk_no_nested(pe.node):
+            if isinstance(n, ast.Assign) and unparse(n.targets[0]) == "events" and isinstance(n.value, ast.List):
+                for e_ in n.value.elts:
+                    if isinstance(e_, ast.Starred):
+                        v_ = e_.value
+                        # `*(x or ())` / `*x`
+                        if isinstance(v_, ast.BoolOp) and isinstance(v_.op, ast.Or) and isinstance(v_.values[0], ast.Name):
+                            v_ = v_.values[0]
+                        fwd.add(unparse(v_))
+        if fwd >= {pe.params[2], pe.params[3]}:
             r.ok(pe.qualname + ":events", "station keeping and scheduled events are both handed to the integrator", pe.loc())
         else:
             r.violation(pe.qualname + ":events", "events-not-forwarded", "scheduled events are not all added to the integrator's event list", pe.loc())
@@ -150,74 +160,23 @@ def rule_r2(chk, p, t):
     ae = cel.methods.get("_applyEvents")
 
     def f2():
-        cfg = cfg_of(ae)
-        sets = [n for n in cfg.nodes if n.kind == "stmt" and isinstance(n.ast, ast.Assign) and unparse(n.ast.targets[0]) == "self.finite_thrust"]
-        adds = [n for n in cfg.nodes if n.kind == "stmt" and isinstance(n.ast, ast.AugAssign) and isinstance(n.ast.op, ast.Add) and "getStateChange(" in unparse(n.ast.value)]
-        require(len(sets) == 1 and len(adds) == 1, "expected one thrust toggle and one impulse application", ae.node)
-        isin = [n for n in cfg.nodes if n.kind == "cond" and isinstance(n.ast, ast.Call) and call_name(n.ast) == "isinstance" and "ScheduledFiniteThrust" in unparse(n.ast)]
-        # names bound to one event's reported times by the loop header (`for event, times in zip(events, t_events)`)
-        te = ae.params[1]
-        aliases = set()
-        for lp_ in [n for n in walk_no_nested(ae.node) if isinstance(n, ast.For)]:
-            if isinstance(lp_.iter, ast.Call) and call_name(lp_.iter) == "zip" and isinstance(lp_.target, ast.Tuple):
-                for a_, tg_ in zip(lp_.iter.args, lp_.target.elts):
-                    if unparse(a_) == te and isinstance(tg_, ast.Name):
-                        aliases.add(tg_.id)
-        fired = [n for n in cfg.nodes if n.kind == "cond" and ".size > 0" in unparse(n.ast) and (f"{te}[" in unparse(n.ast) or any(unparse(n.ast).startswith(a_ + ".") for a_ in aliases))]
-        # an event is applied when the integrator reported it, or when it is due (its event function is zero) at the
-        # time the integrator stopped for another event - nothing else
-        due = [n for n in cfg.nodes if n.kind == "cond" and isinstance(n.ast, ast.Compare) and isinstance(n.ast.left, ast.Call) and unparse(n.ast.left.func) == "event" and isinstance(n.ast.ops[0], ast.Eq) and unparse(n.ast.comparators[0]) in ("0.0", "0")]
-        gates = [(f.id, True) for f in fired[:1]] + [(d.id, True) for d in due]
-        ok = isin and fired and cfg.must_pass(sets[0].id, via_edges=[(isin[0].id, True)]) and cfg.must_pass(adds[0].id, via_edges=[(isin[0].id, False)]) and cfg.must_pass(sets[0].id, via_edges=gates) and cfg.must_pass(adds[0].id, via_edges=gates)
-        v = sets[0].ast.value
-        ok = ok and isinstance(v, ast.Call) and call_name(v) == "getStateChangeCallback" and unparse(v.func.value) == "event"
-        tdef = [n for n in walk_no_nested(ae.node) if isinstance(n, ast.Assign) and unparse(n.targets[0]) == "current_time"]
-        own_times = {f"{te}[event_index][-1]"} | {f"{a_}[-1]" for a_ in aliases}
-
-        def is_stop(e):
-            # the latest time any event reported: max over the last reported time of every event that fired
-            txt = unparse(inline_locals(ae, e))
-            return "max(" in txt and f"for times in {te} if times.size > 0" in txt and "times[-1]" in txt
-
-        ok = ok and tdef and all(unparse(x.value) in own_times or is_stop(x.value) for x in tdef) and any(unparse(x.value) in own_times for x in tdef)
-        if due:
-            ok = ok and all(is_stop(d.ast.left.args[0]) for d in due)
-        loops = [n for n in walk_no_nested(ae.node) if isinstance(n, ast.For)]
-        ok = ok and loops and unparse(loops[0].iter) in (f"enumerate({ae.params[2]})", f"zip({ae.params[2]}, {te})", f"zip({te}, {ae.params[2]})")
-        if ok:
-            r.ok(ae.qualname, "an event that fired toggles the thrust (finite) or adds its impulse once (discrete)", ae.loc())
+        bad, _due, _lp = apply_events_verdict(ae)
+        if bad:
+            r.violation(ae.qualname, "apply-events:" + ";".join(b[:60] for b in bad), "_applyEvents no longer toggles the thrust / applies the impulse exactly for the events that fired, at their firing time: " + "; ".join(bad), ae.loc())
         else:
-            r.violation(ae.qualname, "apply-events", "_applyEvents no longer toggles the thrust / applies the impulse exactly for the events that fired, at their firing time", ae.loc())
+            r.ok(ae.qualname, "path-wise: an event that fired (reported, or due at the stop time) toggles the thrust (finite) or adds its impulse once (discrete), at its own time", ae.loc())
 
     r.guard(ae.qualname, f2)
     prop = cel.methods.get("propagate")
 
     def f3():
-        calls = find_calls(prop.node, "solve_ivp")
-        require(len(calls) == 1, "one solve_ivp call expected", prop.node)
-        c = calls[0]
-        kws = {k.arg: unparse(k.value) for k in c.keywords}
-        bad = []
-        if kws.get("events") != "events":
-            bad.append(f"events={kws.get('events')}")
-        if unparse(c.args[1]) != f"({prop.params[1]}, {prop.params[2]})":
-            bad.append(f"t_span={unparse(c.args[1])}")
-        loops = [n for n in walk_no_nested(prop.node) if isinstance(n, ast.While)]
-        if not (loops and unparse(loops[0].test) == f"{prop.params[1]} < {prop.params[2]}"):
-            bad.append("restart loop condition")
-        adv = [n for n in walk_no_nested(prop.node) if isinstance(n, ast.Assign) and unparse(n.targets[0]) == prop.params[1] and "solution.t[-1]" in unparse(n.value)]
-        if not adv:
-            bad.append("restart time is not the time the solver stopped at")
-        ap = find_calls(prop.node, "_applyEvents")
-        if not (len(ap) == 1 and unparse(ap[0].args[0]) == "solution.t_events" and unparse(ap[0].args[1]) == "events"):
-            bad.append("_applyEvents arguments")
-        st = [n for n in walk_no_nested(prop.node) if isinstance(n, ast.Assign) and unparse(n.targets[0]) == prop.params[3] and "solution.y" in unparse(n.value)]
-        if not (st and unparse(st[0].value) == "solution.y[:, -1].reshape(state_shape)"):
-            bad.append(f"restart state `{unparse(st[0].value) if st else None}`")
+        from rules.C03 import propagate_loop_facts
+
+        _facts, _layout, bad = propagate_loop_facts(prop)
         if bad:
             r.violation(prop.qualname, "restart-loop:" + ";".join(bad), "the event-restart loop of propagate is broken: " + "; ".join(bad), prop.loc())
         else:
-            r.ok(prop.qualname, "solve_ivp((t0, tf), events) restarted from the stop time and last column until tf", prop.loc())
+            r.ok(prop.qualname, "solve_ivp((t, tf), events) restarted from the stop time and last column until tf (symbolic loop summary)", prop.loc())
 
     r.guard(prop.qualname, f3)
     ft = p.cls(FT)
@@ -451,7 +410,13 @@ def rule_r4(chk, p, t):
         m = cel.methods.get(mname)
         require(m is not None, f"Celestial.{mname} not found", cel.node)
         sites = []
-        for n in walk_no_nested(m.node):
+        if mname == "propagate":
+            from rules.C03 import propagate_loop_facts
+
+            facts, _l, _r = propagate_loop_facts(m)
+            if facts.get("increment") is not None:
+                sites.append((facts["loop"], facts["increment"], "solution.t[-1]"))
+        for n in walk_no_nested(m.node) if mname != "propagate" else []:
             if isinstance(n, ast.AugAssign) and isinstance(n.op, ast.Add) and isinstance(n.target, ast.Name) and (n.target.id.endswith("_time") or n.target.id == "time"):
                 sites.append((n, n.value, unparse(n.target)))
             if isinstance(n, ast.Assign) and isinstance(n.targets[0], ast.Name) and (n.targets[0].id.endswith("_time") or n.targets[0].id == "time") and isinstance(n.value, ast.BinOp) and isinstance(n.value.op, ast.Add) and "solution.t" in unparse(n.value.left):
@@ -691,3 +656,212 @@ def run(chk, p, t):
         except (Undecided, AnchorError) as e:
             rr = chk.rule(rid + ".x", fn.__name__, 0, "-")
             (rr.undecided if isinstance(e, Undecided) else rr.error)(fn.__name__, str(e))
+
+
+# ---------------------------------------------------------------------------------- path-wise reading of _applyEvents
+class _BodyFn:
+    """A loop body wrapped as a function for the path machinery (`continue` becomes `return`)."""
+
+    def __init__(self, node, name):
+        self.node = node
+        self.name = name
+        self.qualname = name
+
+
+def apply_events_paths(ae):
+    """Per-event semantics of `Celestial._applyEvents`, read path-wise from the body of its loop over the events.
+
+    Returns (paths, own, complaints) where each path is a dict: `reported` (True / False / None: polarity of the test
+    "the integrator reported a time for THIS event"), `due` (the event function evaluated at the stop time compared
+    `== 0`: True / False / None, with the stop-time expression), `thrust` (time expression handed to
+    getStateChangeCallback, or None), `impulse` (list of time expressions handed to getStateChange in `state += ...`),
+    `finite` (polarity of isinstance(event, ScheduledFiniteThrust) or None)."""
+    import copy
+
+    from rsa.terms import NotEvaluable, inline_locals, path_states
+
+    te, evs, stp = ae.params[1], ae.params[2], ae.params[3]
+    loops = [n for n in walk_no_nested(ae.node) if isinstance(n, ast.For)]
+    require(len(loops) >= 1, "_applyEvents does not loop over the events", ae.node)
+    lp = [l for l in loops if evs in unparse(l.iter)]
+    require(len(lp) == 1, "one loop over the events expected", ae.node)
+    lp = lp[0]
+    it = lp.iter
+    ev_name = own = None
+    if isinstance(it, ast.Call) and call_name(it) == "enumerate" and unparse(it.args[0]) == evs and isinstance(lp.target, ast.Tuple) and len(lp.target.elts) == 2:
+        idx, ev_name = lp.target.elts[0].id, lp.target.elts[1].id
+        own = f"{te}[{idx}]"
+    elif isinstance(it, ast.Call) and call_name(it) == "zip" and len(it.args) == 2 and isinstance(lp.target, ast.Tuple):
+        names = [unparse(a) for a in it.args]
+        if set(names) == {evs, te}:
+            ev_name = lp.target.elts[names.index(evs)].id
+            own = lp.target.elts[names.index(te)].id
+    if ev_name is None:
+        raise Undecided(f"_applyEvents: the loop iterates `{unparse(it)}`, not the events paired with their reported times", lp)
+
+    class C2R(ast.NodeTransformer):
+        def visit_Continue(self, n):
+            return ast.copy_location(ast.Return(value=None), n)
+
+        def visit_For(self, n):
+            return n  # inner loops keep their own continue
+
+    body = [C2R().visit(copy.deepcopy(s_)) for s_ in lp.body]
+    fn = ast.FunctionDef(name="_body", args=ast.arguments(posonlyargs=[], args=[], kwonlyargs=[], kw_defaults=[], defaults=[]), body=body, decorator_list=[], lineno=lp.lineno, col_offset=0)
+    ast.fix_missing_locations(fn)
+    try:
+        states = path_states(_BodyFn(fn, ae.qualname + ":body"), max_paths=256)
+    except NotEvaluable as e:
+        raise Undecided(f"_applyEvents: loop body not loop-free ({e})", lp)
+
+    def is_stop(e):
+        txt = unparse(inline_locals(ae, e))
+        return "max(" in txt and f"for times in {te} if times.size > 0" in txt and "times[-1]" in txt
+
+    # function-level single definitions (the stop time computed before the loop) are inlined into every path, then
+    # conditional expressions are split consistently across conditions and bindings, and contradictory paths dropped
+    def inl(e):
+        return inline_locals(ae, e)
+
+    work = []
+    for stt in states:
+        work.append(dict(conds=[(inl(c), pol) for c, pol in stt["conds"]], env={k: inl(v) for k, v in stt["env"].items()}))
+    states = []
+    while work:
+        cur = work.pop()
+        exprs = [c for c, _p in cur["conds"]] + list(cur["env"].values())
+        ife = next((n for e_ in exprs for n in ast.walk(e_) if isinstance(n, ast.IfExp)), None)
+        if ife is None or len(states) + len(work) > 2000:
+            states.append(cur)
+            continue
+        ttxt = unparse(ife.test)
+        for pol in (True, False):
+
+            class R2(ast.NodeTransformer):
+                def visit_IfExp(self, n):
+                    n = self.generic_visit(n)
+                    if isinstance(n, ast.IfExp) and unparse(n.test) == ttxt:
+                        return n.body if pol else n.orelse
+                    return n
+
+            work.append(dict(conds=[(R2().visit(copy.deepcopy(c)), p_) for c, p_ in cur["conds"]] + [(copy.deepcopy(ife.test), pol)], env={k: R2().visit(copy.deepcopy(v)) for k, v in cur["env"].items()}))
+
+    def feasible(stt):
+        seen = {}
+        for c, pol in stt["conds"]:
+            txt = unparse(c)
+            neg = False
+            while txt.startswith("not "):
+                neg, txt = not neg, txt[4:].strip()
+                if txt.startswith("(") and txt.endswith(")"):
+                    txt = txt[1:-1]
+            eff = pol != neg
+            if txt.endswith(" is not None"):
+                txt, eff = txt[: -len(" is not None")] + " is None", not eff
+            if txt.endswith(" is None") and txt != "None is None":
+                opnd = c
+                while isinstance(opnd, ast.UnaryOp):
+                    opnd = opnd.operand
+                left = opnd.left if isinstance(opnd, ast.Compare) else None
+                # an element of the reported times / the maximum of a non-empty list of them is a number, never None
+                if isinstance(left, ast.Subscript) or (isinstance(left, ast.Call) and call_name(left) == "max"):
+                    if eff:
+                        return False
+                    continue
+            const = {"None is None": True, "None is not None": False}.get(txt)
+            if const is not None and const != eff:
+                return False
+            if txt in seen and seen[txt] != eff:
+                return False
+            seen[txt] = eff
+        # emptiness of the stop-time list is tied to whether any event reported: nothing to decide here
+        return True
+
+    states = [s_ for s_ in states if feasible(s_)]
+    paths = []
+    for stt in states:
+        rec = dict(reported=None, due=None, finite=None, thrust=None, impulse=[], stop_guard=None, conds=[unparse(c) + "=" + str(pol) for c, pol in stt["conds"]])
+        for c, pol in stt["conds"]:
+            txt = unparse(c)
+            if txt in (f"{own}.size > 0", f"{own}.size != 0", f"len({own}) > 0", f"{own}.size"):
+                rec["reported"] = pol
+            elif txt in (f"{own}.size == 0", f"len({own}) == 0"):
+                rec["reported"] = not pol
+            elif isinstance(c, ast.Call) and call_name(c) == "isinstance" and "ScheduledFiniteThrust" in txt and unparse(c.args[0]) == ev_name:
+                rec["finite"] = pol
+            elif isinstance(c, ast.Compare) and len(c.ops) == 1 and isinstance(c.left, ast.Call) and unparse(c.left.func) == ev_name and unparse(c.comparators[0]) in ("0.0", "0"):
+                eq = isinstance(c.ops[0], ast.Eq)
+                if isinstance(c.ops[0], (ast.Eq, ast.NotEq)) and c.left.args and is_stop(c.left.args[0]) and unparse(c.left.args[1]) == f"{stp}[:, 0]":
+                    rec["due"] = pol if eq else not pol
+        ft = stt["env"].get("self.finite_thrust")
+        if ft is not None:
+            if isinstance(ft, ast.Call) and call_name(ft) == "getStateChangeCallback" and unparse(ft.func.value) == ev_name and len(ft.args) == 1:
+                rec["thrust"] = ft.args[0]
+            else:
+                rec["thrust"] = ft
+        st_new = stt["env"].get(stp)
+        # impulses: `state += event.getStateChange(t, state[:, 0])[:, None]`, possibly through an alias of the state
+        def impulses(e, acc):
+            if isinstance(e, ast.BinOp) and isinstance(e.op, ast.Add):
+                impulses(e.left, acc)
+                r_ = e.right
+                if isinstance(r_, ast.Subscript) and isinstance(r_.value, ast.Call) and call_name(r_.value) == "getStateChange" and unparse(r_.value.func.value) == ev_name:
+                    acc.append(r_.value)
+                else:
+                    acc.append(r_)
+            return acc
+
+        if st_new is not None:
+            rec["impulse"] = impulses(st_new, [])
+        paths.append(rec)
+    return paths, own, lp
+
+
+def apply_events_verdict(ae):
+    """Complaints (list of str) about _applyEvents read path-wise; empty when, for every event: it is applied iff the
+    integrator reported it or it is due (event function zero) at the stop time; at its own last reported time resp. the
+    stop time; a finite thrust toggles the thrust callback, any other event adds its state change exactly once."""
+    paths, own, lp = apply_events_paths(ae)
+    stp = ae.params[3]
+    bad = []
+    n_applied = 0
+    seen_due = False
+
+    def time_ok(e, rec):
+        txt = unparse(e)
+        if rec["reported"] is True:
+            return txt == f"{own}[-1]"
+        from rsa.terms import inline_locals
+
+        t2 = unparse(inline_locals(ae, e))
+        return "max(" in t2 and "times[-1]" in t2
+
+    for rec in paths:
+        applied = rec["thrust"] is not None or bool(rec["impulse"])
+        if rec["reported"] is True and not applied:
+            bad.append("an event the integrator reported is not applied on some path")
+        if applied:
+            n_applied += 1
+            if rec["reported"] is not True and rec["due"] is not True:
+                bad.append(f"an event is applied although it was neither reported nor due at the stop time (path: {rec['conds'][:4]})")
+            if rec["due"] is True:
+                seen_due = True
+            if rec["thrust"] is not None and rec["impulse"]:
+                bad.append("one path both toggles the thrust and adds an impulse")
+            if rec["thrust"] is not None:
+                if rec["finite"] is not True:
+                    bad.append("the thrust callback is set for an event that is not a finite thrust")
+                elif not (isinstance(rec["thrust"], ast.AST) and time_ok(rec["thrust"], rec)):
+                    bad.append(f"the thrust callback is taken at `{unparse(rec['thrust'])[:50]}`, not at the event's own firing time")
+            if rec["impulse"]:
+                if rec["finite"] is not False:
+                    bad.append("a state change is added for a finite-thrust event")
+                if len(rec["impulse"]) != 1:
+                    bad.append(f"a fired impulse is added {len(rec['impulse'])} times on one path")
+                else:
+                    c = rec["impulse"][0]
+                    if not (isinstance(c, ast.Call) and len(c.args) == 2 and time_ok(c.args[0], rec) and unparse(c.args[1]) == f"{stp}[:, 0]"):
+                        bad.append(f"the impulse is `{unparse(c)[:70]}`, not getStateChange(firing time, state[:, 0])")
+    if n_applied == 0:
+        bad.append("no path applies an event")
+    return sorted(set(bad)), seen_due, lp
